@@ -169,11 +169,15 @@ pub struct Cfg {
     pub strategy: u8, // 0 dfs 1 bfs 2 iterative
     pub max_depth: usize,
     pub max_solutions: usize,
+    /// the query goes through query_with_rete_engine with an (empty) incremental engine attached
+    pub with_rete: bool,
+    /// the goal literal is written as a quoted string ("true" / "false"): a string never equals a boolean fact
+    pub quoted_goal: bool,
 }
 
 impl Cfg {
     fn name(&self) -> String {
-        format!("{}(depth {}, solutions {})", ["DFS", "BFS", "Iterative"][self.strategy as usize], self.max_depth, self.max_solutions)
+        format!("{}(depth {}, solutions {}{}{})", ["DFS", "BFS", "Iterative"][self.strategy as usize], self.max_depth, self.max_solutions, if self.with_rete { ", RETE engine attached" } else { "" }, if self.quoted_goal { ", quoted goal literal" } else { "" })
     }
     fn to_config(self) -> BackwardConfig {
         BackwardConfig {
@@ -230,15 +234,20 @@ pub enum Verdict {
 pub fn run_case(c: &Case, mode: Mode) -> Verdict {
     let Some(cl) = closure(c.prog, c.init, c.nf) else { return Verdict::Undefined };
     let (y, v) = c.goal;
-    let truth = cl.get(&y) == Some(&v);
-    let q = format!("F.{} == {}", FIELDS[y], v);
+    let truth = !c.cfg.quoted_goal && cl.get(&y) == Some(&v);
+    let q = if c.cfg.quoted_goal { format!("F.{} == \"{}\"", FIELDS[y], v) } else { format!("F.{} == {}", FIELDS[y], v) };
     let mut facts = mk_facts(c.init, c.nf);
     let before = facts_map(&facts);
     let kb = c.kb.clone();
     let cfg = c.cfg;
     let r = std::panic::catch_unwind(std::panic::AssertUnwindSafe(|| {
         let mut e = BackwardEngine::with_config(kb, cfg.to_config());
-        e.query(&q, &mut facts)
+        if cfg.with_rete {
+            let rete = std::sync::Arc::new(std::sync::Mutex::new(rust_rule_engine::rete::propagation::IncrementalEngine::new()));
+            e.query_with_rete_engine(&q, &mut facts, Some(rete))
+        } else {
+            e.query(&q, &mut facts)
+        }
     }));
     let res = match r {
         Err(_) => return Verdict::Panic(crate::explore::take_panic()),
@@ -254,14 +263,14 @@ pub fn run_case(c: &Case, mode: Mode) -> Verdict {
     match mode {
         Mode::Soundness => {
             if res.provable {
-                let held = facts.get(&format!("F.{}", FIELDS[y])) == Some(Value::Boolean(v));
+                let held = !cfg.quoted_goal && facts.get(&format!("F.{}", FIELDS[y])) == Some(Value::Boolean(v));
                 if !truth {
                     return Verdict::Bad { class: "provable_but_goal_false_in_closure", detail: format!("{} reports `{}` provable, but the forward closure of the rules on the initial facts is {:?}", cfg.name(), q, cl), tags };
                 }
                 if !held {
                     return Verdict::Bad { class: "provable_but_goal_false_in_returned_facts", detail: format!("{} reports `{}` provable, but the facts handed back are {:?}", cfg.name(), q, after), tags };
                 }
-            } else if cfg.strategy == 0 && cfg.max_solutions == 1 && h != usize::MAX && h <= cfg.max_depth {
+            } else if !cfg.quoted_goal && cfg.strategy == 0 && cfg.max_solutions == 1 && h != usize::MAX && h <= cfg.max_depth {
                 return Verdict::Bad { class: "derivable_goal_not_proved", detail: format!("{} reports `{}` not provable although it has a conjunctive derivation of height {} <= max_depth {}", cfg.name(), q, h, cfg.max_depth), tags };
             }
         }
@@ -281,14 +290,21 @@ fn configs(tier: Tier, small: bool) -> Vec<Cfg> {
     let depths: Vec<usize> = if small || tier == Tier::Quick { vec![0, 1, 2, 6] } else { (0..=6).collect() };
     for d in depths {
         for s in [1usize, 3] {
-            v.push(Cfg { strategy: 0, max_depth: d, max_solutions: s });
+            v.push(Cfg { strategy: 0, max_depth: d, max_solutions: s, with_rete: false, quoted_goal: false });
         }
     }
     for st in [1u8, 2u8] {
         for d in if tier == Tier::Quick { vec![6] } else { vec![2, 6] } {
-            v.push(Cfg { strategy: st, max_depth: d, max_solutions: 1 });
+            v.push(Cfg { strategy: st, max_depth: d, max_solutions: 1, with_rete: false, quoted_goal: false });
         }
     }
+    // the secondary entry point (an incremental engine attached) and a quoted goal literal, at full depth
+    for st in [0u8, 1u8] {
+        v.push(Cfg { strategy: st, max_depth: 6, max_solutions: 1, with_rete: true, quoted_goal: false });
+    }
+    v.push(Cfg { strategy: 0, max_depth: 6, max_solutions: 3, with_rete: true, quoted_goal: false });
+    v.push(Cfg { strategy: 0, max_depth: 6, max_solutions: 1, with_rete: false, quoted_goal: true });
+    v.push(Cfg { strategy: 0, max_depth: 6, max_solutions: 3, with_rete: false, quoted_goal: true });
     v
 }
 
@@ -302,7 +318,7 @@ fn describe(prog: &[HRule], nf: usize, init: u32, goal: (usize, bool), cfg: Cfg,
         "init": init,
         "goal": format!("F.{} == {}", FIELDS[goal.0], goal.1),
         "goal_idx": [goal.0, goal.1 as usize],
-        "config": {"strategy": cfg.strategy, "max_depth": cfg.max_depth, "max_solutions": cfg.max_solutions},
+        "config": {"strategy": cfg.strategy, "max_depth": cfg.max_depth, "max_solutions": cfg.max_solutions, "with_rete": cfg.with_rete, "quoted_goal": cfg.quoted_goal},
         "via_grl": via_grl,
     })
 }
@@ -519,7 +535,7 @@ pub fn replay_mode(case: &serde_json::Value, mode: Mode) -> crate::props::Replay
         .unwrap_or_default();
     let init = case["init"].as_u64().unwrap_or(0) as u32;
     let goal = (case["goal_idx"][0].as_u64().unwrap_or(0) as usize, case["goal_idx"][1].as_u64().unwrap_or(1) == 1);
-    let cfg = Cfg { strategy: case["config"]["strategy"].as_u64().unwrap_or(0) as u8, max_depth: case["config"]["max_depth"].as_u64().unwrap_or(6) as usize, max_solutions: case["config"]["max_solutions"].as_u64().unwrap_or(1) as usize };
+    let cfg = Cfg { strategy: case["config"]["strategy"].as_u64().unwrap_or(0) as u8, max_depth: case["config"]["max_depth"].as_u64().unwrap_or(6) as usize, max_solutions: case["config"]["max_solutions"].as_u64().unwrap_or(1) as usize, with_rete: case["config"]["with_rete"].as_bool().unwrap_or(false), quoted_goal: case["config"]["quoted_goal"].as_bool().unwrap_or(false) };
     let via_grl = case["via_grl"].as_bool().unwrap_or(false);
     let kb = kb_of(&prog, via_grl);
     let hist = vec![format!("rules: {:?}", case["rules"]), format!("initial facts true: {:?}", case["initial_true"]), format!("query `{}` with {}", case["goal"].as_str().unwrap_or(""), cfg.name())];
